@@ -205,10 +205,12 @@ impl GroupValues for GroupValuesRows {
     }
 
     fn emit(&mut self, emit_to: EmitTo) -> Result<Vec<ArrayRef>> {
-        let mut group_values = self
-            .group_values
-            .take()
-            .expect("Can not emit from empty rows");
+        // A store that has not interned anything yet holds no groups: emit
+        // nothing rather than panic (same default as `intern`).
+        let mut group_values = match self.group_values.take() {
+            Some(group_values) => group_values,
+            None => self.row_converter.empty_rows(0, 0),
+        };
 
         let mut output = match emit_to {
             EmitTo::All => {
